@@ -567,3 +567,200 @@ Proof.
   apply dec_loop_prefix; try assumption; lia.
 Qed.
 Print Assumptions tup_truncated_rejected.
+
+(* ================= nothing is made up, on arbitrary bytes (C06) =================
+   Every key and every buffer the decoder adds to the set is a contiguous piece of the input, the buffer after the
+   key: no zero padding, no partial strings, whatever the bytes are. *)
+Definition suffix (r bs : list N) : Prop := exists a, bs = a ++ r.
+Lemma suffix_refl bs : suffix bs bs. Proof. exists []. reflexivity. Qed.
+Lemma suffix_trans a b c : suffix a b -> suffix b c -> suffix a c.
+Proof. intros [x ->] [y ->]. exists (y ++ x). now rewrite app_assoc. Qed.
+Lemma suffix_cons x bs : suffix bs (x :: bs). Proof. exists [x]. reflexivity. Qed.
+Lemma suffix_nil bs : suffix [] bs. Proof. exists bs. now rewrite app_nil_r. Qed.
+Lemma suffix_skipn n bs : suffix (skipn n bs) bs.
+Proof. exists (firstn n bs). symmetry. apply firstn_skipn. Qed.
+Lemma suffix_tl bs : suffix (tl bs) bs.
+Proof. destruct bs; [apply suffix_refl|apply suffix_cons]. Qed.
+Lemma suffix_drop n bs : suffix (drop n bs) bs.
+Proof. unfold drop. destruct (_ <=? _); [apply suffix_nil|apply suffix_skipn]. Qed.
+Lemma suffix_read_head2 bs ty tg r two : read_head2 bs = Some (ty, tg, r, two) -> suffix r bs.
+Proof.
+  unfold read_head2. destruct bs as [|b r0]; [discriminate|].
+  destruct (b / 16 =? 15); [destruct r0; [discriminate|]|]; intros H; inversion H; subst.
+  - eapply suffix_trans; [apply suffix_cons|apply suffix_cons].
+  - apply suffix_cons.
+Qed.
+Lemma suffix_read_head bs ty tg r : read_head bs = Some (ty, tg, r) -> suffix r bs.
+Proof.
+  unfold read_head. destruct (read_head2 bs) as [[[[a b] c] d]|] eqn:E; [|discriminate].
+  intros H; inversion H; subst. eapply suffix_read_head2; eauto.
+Qed.
+Lemma suffix_bread n bs v r : bread n bs = Some (v, r) -> suffix r bs.
+Proof. unfold bread. destruct (n <=? length bs)%nat; [|discriminate]. intros H; inversion H. apply suffix_skipn. Qed.
+Lemma suffix_read_count bs : match read_count bs with COk _ r => suffix r bs | CErr r => suffix r bs end.
+Proof.
+  unfold read_count. destruct (read_head bs) as [[[ty tg] r]|] eqn:E; [|apply suffix_nil].
+  apply suffix_read_head in E.
+  destruct (negb (tg =? 0) || (ty =? tSE)); [assumption|].
+  destruct (ty =? tZERO); [assumption|].
+  destruct (ty =? tBYTE). { destruct r; [apply suffix_nil|]. eapply suffix_trans; [apply suffix_cons|eassumption]. }
+  destruct (ty =? tSHORT). { destruct (bread 2 r) as [[v r']|] eqn:B; [apply suffix_bread in B; eapply suffix_trans; eassumption|apply suffix_nil]. }
+  destruct (ty =? tINT). { destruct (bread 4 r) as [[v r']|] eqn:B; [apply suffix_bread in B; eapply suffix_trans; eassumption|apply suffix_nil]. }
+  assumption.
+Qed.
+
+Lemma skip_suffix : forall fuel,
+  (forall d ty bs, suffix (snd (skip_field fuel d ty bs)) bs) /\
+  (forall d n bs, suffix (snd (skip_n fuel d n bs)) bs) /\
+  (forall d bs, suffix (snd (skip_to_end fuel d bs)) bs).
+Proof.
+  induction fuel as [|f (IHf & IHn & IHe)]; [repeat split; intros; apply suffix_refl|].
+  split; [|split].
+  - intros d ty bs. cbn [skip_field].
+    destruct (ty =? tBYTE); [apply suffix_drop|]. destruct (ty =? tSHORT); [apply suffix_drop|].
+    destruct (ty =? tINT); [apply suffix_drop|]. destruct (ty =? tLONG); [apply suffix_drop|].
+    destruct (ty =? tFLOAT); [apply suffix_drop|]. destruct (ty =? tDOUBLE); [apply suffix_drop|].
+    destruct (ty =? tSTR1).
+    { destruct bs as [|l r]; [apply suffix_nil|]. cbn [snd]. eapply suffix_trans; [apply suffix_drop|apply suffix_cons]. }
+    destruct (ty =? tSTR4).
+    { destruct (bread 4 bs) as [[l r]|] eqn:B; [|apply suffix_nil]. apply suffix_bread in B. cbn [snd].
+      eapply suffix_trans; [apply suffix_drop|eassumption]. }
+    destruct (ty =? tMAP).
+    { destruct (maxd <=? d); [apply suffix_refl|]. pose proof (suffix_read_count bs) as Hc.
+      destruct (read_count bs) as [n r|r]; [|exact Hc]. eapply suffix_trans; [apply IHn|exact Hc]. }
+    destruct (ty =? tLIST).
+    { destruct (maxd <=? d); [apply suffix_refl|]. pose proof (suffix_read_count bs) as Hc.
+      destruct (read_count bs) as [n r|r]; [|exact Hc]. eapply suffix_trans; [apply IHn|exact Hc]. }
+    destruct (ty =? tSIMPLE).
+    { destruct (read_head bs) as [[[t tg] r]|] eqn:E; [|apply suffix_nil]. apply suffix_read_head in E.
+      destruct (negb (t =? tBYTE)); [exact E|].
+      pose proof (suffix_read_count r) as Hc. destruct (read_count r) as [n r'|r']; [|eapply suffix_trans; eassumption].
+      cbn [snd]. destruct (0 <? n)%Z; [eapply suffix_trans; [apply suffix_drop|]|]; eapply suffix_trans; eassumption. }
+    destruct (ty =? tSB). { destruct (maxd <=? d); [apply suffix_refl|]. apply IHe. }
+    destruct ((ty =? tSE) || (ty =? tZERO)); apply suffix_refl.
+  - intros d n bs. cbn [skip_n]. destruct (n <=? 0)%Z; [apply suffix_refl|].
+    destruct (read_head bs) as [[[ty tg] r]|] eqn:E; [|apply suffix_nil]. apply suffix_read_head in E.
+    pose proof (IHf d ty r) as H1. destruct (skip_field f d ty r) as [s r'] eqn:Es. cbn [snd] in H1.
+    eapply suffix_trans; [apply IHn|]. eapply suffix_trans; eassumption.
+  - intros d bs. cbn [skip_to_end].
+    destruct (read_head bs) as [[[ty tg] r]|] eqn:E; [|apply suffix_nil]. apply suffix_read_head in E.
+    pose proof (IHf d ty r) as H1. destruct (skip_field f d ty r) as [s r'] eqn:Es. cbn [snd] in H1.
+    destruct s; [|cbn [snd]; eapply suffix_trans; eassumption|cbn [snd]; eapply suffix_trans; eassumption].
+    destruct (ty =? tSE); [cbn [snd]; eapply suffix_trans; eassumption|].
+    eapply suffix_trans; [apply IHe|]. eapply suffix_trans; eassumption.
+Qed.
+
+Lemma seek_suffix : forall fuel tag req bs,
+  match skip_to_no_check fuel tag req bs with Found _ r => suffix r bs | NotFound r => suffix r bs | _ => True end.
+Proof.
+  induction fuel as [|f IH]; intros tag req bs; [exact I|]. cbn [skip_to_no_check].
+  destruct (read_head2 bs) as [[[[ty tg] r] two]|] eqn:E.
+  - apply suffix_read_head2 in E. destruct ((ty =? tSE) || (tag <? tg)).
+    + destruct req; [exact I|]. unfold unread. destruct (two && (tg <? 15)); [apply suffix_tl|apply suffix_refl].
+    + destruct (tg =? tag); [exact E|]. destruct (skip_suffix f) as (Hf & _). pose proof (Hf 0 ty r) as H1.
+      destruct (skip_field f 0 ty r) as [s r'] eqn:Es. cbn [snd] in H1. destruct s; try exact I.
+      specialize (IH tag req r'). destruct (skip_to_no_check f tag req r'); try exact I; eapply suffix_trans; try eassumption; eapply suffix_trans; eassumption.
+  - destruct req; [exact I|apply suffix_nil].
+Qed.
+Lemma skip_to_suffix fuel ty tag req bs :
+  match skip_to fuel ty tag req bs with Found _ r => suffix r bs | NotFound r => suffix r bs | _ => True end.
+Proof.
+  unfold skip_to. pose proof (seek_suffix fuel tag req bs) as H.
+  destruct (skip_to_no_check fuel tag req bs); try exact H. destruct (ty0 =? ty); [exact H|exact I].
+Qed.
+
+(* the value [x] lies in [bs] and is followed by [r] *)
+Definition piece (x r bs : list N) : Prop := exists a, bs = a ++ x ++ r.
+Lemma piece_suffix x r bs bs' : piece x r bs -> suffix bs bs' -> piece x r bs'.
+Proof. intros [a ->] [b ->]. exists (b ++ a). now rewrite <- app_assoc. Qed.
+
+Lemma r_string_piece f req bs k r : r_string f 0 req bs = ROk k r -> piece k r bs.
+Proof.
+  unfold r_string, with_seek. pose proof (seek_suffix f 0 req bs) as H.
+  destruct (skip_to_no_check f 0 req bs) as [ty r0|r0| |]; try discriminate.
+  destruct (read_string_body ty r0) as [[s r']|] eqn:E; [|discriminate]. intros X; inversion X; subst.
+  apply (piece_suffix _ _ r0); [|exact H]. unfold read_string_body in E. destruct (ty =? tSTR4).
+  - destruct (bread 4 r0) as [[l r1]|] eqn:B; [|discriminate]. apply suffix_bread in B.
+    apply take_str_split in E. destruct E as [-> _]. apply (piece_suffix _ _ (k ++ r)); [exists []; reflexivity|exact B].
+  - destruct (ty =? tSTR1); [|discriminate]. destruct r0 as [|l r1]; [discriminate|].
+    apply take_str_split in E. destruct E as [-> _]. exists [l]. reflexivity.
+Qed.
+
+Lemma dec_value_piece vreq k r k' v r' : dec_value vreq k r = EIns k' v r' -> k' = k /\ piece v r' r.
+Proof.
+  unfold dec_value. pose proof (seek_suffix (fuel_for r) 1 vreq r) as H.
+  destruct (skip_to_no_check (fuel_for r) 1 vreq r) as [ty r1|r1| |]; try discriminate.
+  destruct (ty =? tSIMPLE); [|discriminate].
+  pose proof (skip_to_suffix (fuel_for r1) tBYTE 0 true r1) as H2.
+  destruct (skip_to (fuel_for r1) tBYTE 0 true r1) as [ty2 r2|r2| |]; try discriminate.
+  pose proof (suffix_read_count r2) as H3. destruct (read_count r2) as [n r3|r3]; [|discriminate].
+  destruct (read_bytes n r3) as [[v0 r4]|] eqn:E; [|discriminate]. intros X; inversion X; subst.
+  split; [reflexivity|]. apply read_bytes_split in E. destruct E as [-> _].
+  apply (piece_suffix _ _ (v ++ r')); [exists []; reflexivity|].
+  eapply suffix_trans; [exact H3|]. eapply suffix_trans; eassumption.
+Qed.
+
+Lemma dec_entry_piece kreq vreq bs k v r : dec_entry kreq vreq bs = EIns k v r ->
+  exists mid, piece k mid bs /\ piece v r mid /\ suffix r bs.
+Proof.
+  unfold dec_entry. destruct (r_string (fuel_for bs) 0 kreq bs) as [k0 r0|r0| |] eqn:E; try discriminate.
+  - apply r_string_piece in E. intros H. apply dec_value_piece in H. destruct H as [-> Hv].
+    exists r0. split; [exact E|split; [exact Hv|]]. destruct E as [a ->]. destruct Hv as [b ->].
+    exists (a ++ k0 ++ b ++ v). now rewrite <- !app_assoc.
+  - intros H. apply dec_value_piece in H. destruct H as [-> Hv].
+    assert (Hs : suffix r0 bs).
+    { unfold r_string, with_seek in E. pose proof (seek_suffix (fuel_for bs) 0 kreq bs) as Hk.
+      destruct (skip_to_no_check (fuel_for bs) 0 kreq bs) as [ty x|x| |]; try discriminate.
+      - destruct (read_string_body ty x) as [[? ?]|]; discriminate.
+      - inversion E; subst. exact Hk. }
+    exists r0. split; [destruct Hs as [a ->]; exists a; reflexivity|split; [exact Hv|]].
+    destruct Hv as [b ->]. eapply suffix_trans; [|exact Hs]. exists (b ++ v). now rewrite <- app_assoc.
+Qed.
+
+Definition lies_in (kv : list N * list N) (bs : list N) : Prop :=
+  exists a b c, bs = a ++ fst kv ++ b ++ snd kv ++ c.
+
+Lemma dec_loop_pieces kreq vreq : forall fuel n bs kv, In kv (t_ins (dec_loop kreq vreq fuel n bs)) -> lies_in kv bs.
+Proof.
+  induction fuel as [|f IH]; intros n bs kv; cbn [dec_loop]; destruct (n <=? 0)%Z; try (cbn; tauto).
+  destruct (dec_entry kreq vreq bs) as [k v r|k r|a|] eqn:E; cbn [t_ins]; try (cbn; tauto).
+  - apply dec_entry_piece in E. destruct E as (mid & [a Ha] & [b Hb] & Hs). intros [<-|Hin].
+    + exists a, b, r. cbn [fst snd]. now rewrite Ha, Hb.
+    + apply IH in Hin. destruct Hin as (x & y & z & ->). destruct Hs as [w ->].
+      exists (w ++ x), y, z. now rewrite <- app_assoc.
+  - intros Hin. apply IH in Hin. destruct Hin as (x & y & z & Hr).
+    assert (Hs : suffix r bs).
+    { unfold dec_entry in E. pose proof (seek_suffix (fuel_for bs) 0 kreq bs) as Hk.
+      unfold r_string, with_seek in E.
+      destruct (skip_to_no_check (fuel_for bs) 0 kreq bs) as [ty x0|x0| |]; try discriminate.
+      - destruct (read_string_body ty x0) as [[s r']|] eqn:Eb; [|discriminate].
+        assert (suffix r' x0).
+        { unfold read_string_body in Eb. destruct (ty =? tSTR4).
+          - destruct (bread 4 x0) as [[l r1]|] eqn:B; [|discriminate]. apply suffix_bread in B. apply take_str_split in Eb.
+            destruct Eb as [-> _]. eapply suffix_trans; [|exact B]. exists s. reflexivity.
+          - destruct (ty =? tSTR1); [|discriminate]. destruct x0 as [|l r1]; [discriminate|]. apply take_str_split in Eb.
+            destruct Eb as [-> _]. exists (l :: s). reflexivity. }
+        unfold dec_value in E. pose proof (seek_suffix (fuel_for r') 1 vreq r') as Hv.
+        destruct (skip_to_no_check (fuel_for r') 1 vreq r') as [ty1 y1|y1| |]; try discriminate.
+        + destruct (ty1 =? tSIMPLE); [|discriminate]. destruct (skip_to (fuel_for y1) tBYTE 0 true y1); try discriminate.
+          destruct (read_count rest); [|discriminate]. destruct (read_bytes z0 rest0) as [[? ?]|]; discriminate.
+        + inversion E; subst. eapply suffix_trans; [exact Hv|]. eapply suffix_trans; eassumption.
+      - unfold dec_value in E. pose proof (seek_suffix (fuel_for x0) 1 vreq x0) as Hv.
+        destruct (skip_to_no_check (fuel_for x0) 1 vreq x0) as [ty1 y1|y1| |]; try discriminate.
+        + destruct (ty1 =? tSIMPLE); [|discriminate]. destruct (skip_to (fuel_for y1) tBYTE 0 true y1); try discriminate.
+          destruct (read_count rest); [|discriminate]. destruct (read_bytes z0 rest0) as [[? ?]|]; discriminate.
+        + inversion E; subst. eapply suffix_trans; eassumption. }
+    destruct Hs as [w ->]. exists (w ++ x), y, z. rewrite Hr. now rewrite <- app_assoc.
+Qed.
+
+Theorem tup_nothing_made_up bs kv : In kv (t_ins (tup_decode bs)) -> lies_in kv bs.
+Proof.
+  unfold tup_decode, tup_decode_gen. pose proof (skip_to_suffix (fuel_for bs) tMAP 0 false bs) as H.
+  assert (Hgo : forall r, suffix r bs ->
+     In kv (t_ins (match read_count r with CErr _ => t_err | COk n r1 => dec_loop true true (S (length r1)) n r1 end)) -> lies_in kv bs).
+  { intros r Hr. pose proof (suffix_read_count r) as Hc. destruct (read_count r) as [n r1|r1]; [|cbn; tauto].
+    intros Hin. apply dec_loop_pieces in Hin. destruct Hin as (x & y & z & E).
+    destruct (suffix_trans _ _ _ Hc Hr) as [w ->]. exists (w ++ x), y, z. rewrite E. now rewrite <- app_assoc. }
+  destruct (skip_to (fuel_for bs) tMAP 0 false bs) as [ty r|r| |]; try (cbn; tauto); apply Hgo; exact H.
+Qed.
+Print Assumptions tup_nothing_made_up.
